@@ -7,6 +7,11 @@
 //!  * values: 5_000 (== MARGINAL_FEE, `value > :min_value` is false), 5_001 (just above), ordinary
 //!    values 20_000..200_000 and one 1_200_000 Orchard note (covers the canonical ZIP 318
 //!    denomination 1_000_000, so the bucketed-anchor branch of `propose_transfer` is reachable);
+//!  * canonical ZIP 318 denominations 1_000_000 / 2_000_000 / 5_000_000 to an Orchard receiver are
+//!    each covered by exactly one oldest single Orchard note: `o1m` (mined long before the bucketed
+//!    anchor boundary), `o2b` (mined exactly at it) and `o5r` (mined after it, yet confirmed for the
+//!    ordinary policy) -- one symbol on each side of `t.block <= :anchor_height` for the bucketed
+//!    anchor of `propose_transfer`'s canonical-crossing attempt;
 //!  * confirmations at `T0` (target `T0 + 1`): external notes with exactly 10 and exactly 9
 //!    confirmations, internal (change) notes with exactly 3 and exactly 2, and an external note
 //!    received in the tip block (1 confirmation) -- both sides of `trusted = 3` / `untrusted = 10`;
@@ -69,8 +74,20 @@ pub fn build() -> Universe {
     blocks.push(block(vec![tx(vec![out("e10", A, Sapling, External, 20_000)])]));
     // F+10 = T0-8: external note with exactly 9 confirmations at T0
     blocks.push(block(vec![tx(vec![out("e9", A, Sapling, External, 21_000)])]));
-    // F+11 .. F+15 empty
-    blocks.extend(empties(5));
+    // F+11 empty
+    blocks.extend(empties(1));
+    // F+12 = 100_112: a retained grid boundary (interval 4) and, for target heights T0-2..=T0+1, the
+    // *bucketed* anchor of a canonical ZIP 318 crossing (one interval below the most recent
+    // boundary at or below the ordinary anchor). `o2b` is mined exactly AT that boundary.
+    blocks.push(block(vec![tx(vec![out("o2b", A, Orchard, Internal, 2_200_000)])]));
+    // F+13 empty
+    blocks.extend(empties(1));
+    // F+14: `o5r` is mined AFTER the bucketed boundary but has the 3 (trusted) / 1 (MIN)
+    // confirmations the caller's ordinary policy asks for at T0: it is the oldest single Orchard
+    // note covering 5_000_000, and is not in the tree at the bucketed anchor.
+    blocks.push(block(vec![tx(vec![out("o5r", A, Orchard, Internal, 5_500_000)])]));
+    // F+15 empty
+    blocks.extend(empties(1));
     // F+16 = T0-2: change note with exactly 3 confirmations at T0
     blocks.push(block(vec![tx(vec![out("c3", A, Sapling, Internal, 22_000)])]));
     // F+17 = T0-1: change note with exactly 2 confirmations at T0
